@@ -5,6 +5,7 @@ CONSTANTS
   Dense = TRUE
   KeepStatus = FALSE
   RecheckAtApply = FALSE
+  RecheckElect = TRUE
   RecheckISR = TRUE
   KeepOnFail = FALSE
   CountAll = FALSE
